@@ -11,7 +11,17 @@ def _nontrivial(st):
   return None
 
 
+def _hook_case(st):
+  o = st['out']
+  if o.get('op') == 'Finalize' and len(st['hooks']) >= 2:
+    return core.jdump(['finalize', o['status'], [h['id'] for h in st['hooks']]])
+  return None
+
+
 def run_into(rep, tier):
+  # finalize hooks: two hooks returning the same parameter under different spellings conflict (C12_Conflict is checked
+  # by TLC in MC_Lock_*; here the shortest witness of every (finalize outcome, hook sequence) class is replayed)
+  cc.replay_scenarios(rep, 'GinCore_Scen_lock', max_files=250 if tier == 'quick' else 2000, nontrivial=_hook_case, depth=9)
   cc.model_check(rep, 'MC_Spellings_quick', timeout=600)
   n = 200 if tier == 'quick' else 3000
   cc.replay_behaviours(rep, 'GinCore_Sim_spellings', num=n, depth=12, nontrivial=_nontrivial, generate=n * 5, seed_off=21)
